@@ -22,9 +22,13 @@ def run(ctx: Ctx) -> int:
                        "rejection with any GuppyError counts as a compile error"]
     # stage 2 (E5): every accepted program also through the checked CFGs of the real front end
     jobs += e4_check.jobs_for(ctx, "c32", total, batch=6, timeout=ctx.pick(300, 900), total=total, harness="harness/E5_equiv.py", fn="h_equiv5")
+    # stage 3 (E7): and through the HUGR /repo's back end emits (a construct the checker keeps but the lowering drops would show here)
+    jobs += e4_check.jobs_for(ctx, "c32", total, batch=6, timeout=ctx.pick(300, 900), total=total, harness="harness/E7_equiv.py", fn="h_equiv7")
+    ctx.functions_encoded.append("stage 3: the HUGR emitted for every accepted program (compiler/*.py) interpreted by lib/e7.py")
     ctx.crosshair(jobs)
     v = e4_check.collect_verdicts(ctx, crash_is_note=True)
     ctx.extra["e5"] = e4_check.collect_e5(ctx)
+    ctx.extra["e7"] = e4_check.collect_e5(ctx, "e7report")
     table = {p["src"].split("(")[0].split()[-1]: (p["verdict"] + (":" + p["why"] if p["why"] else "")) for p in v["programs"]}
     ctx.samples.extend({"program": p["src"], "verdict": p["verdict"], "why": p["why"]} for p in v["programs"][:4])
     return ctx.finish(
@@ -32,6 +36,6 @@ def run(ctx: Ctx) -> int:
         rule="program = one syntax-kind program; the real check() decides accepted/rejected; every accepted program is compared (CPython on the source || walk over the real CFG) on all paths for symbolic inputs",
         explanation="every Python statement/expression kind and optional clause is put through the real front end; whatever it accepts must behave as CPython executes it, for all inputs within the bounds",
         trusted_base=["CPython 3.12", "crosshair-tool 0.0.110", "z3 5.1", "import shim", "lib/e4.py block walker", "lib/e4_syntax.py corpus"],
-        extra_cov={"stage2_checked_cfg": ctx.extra.get("e5"), "programs": max(v["accepted"] + v["rejected"], 1), "disagreements_checked": len(ctx.violations), "accepted": v["accepted"], "rejected": v["rejected"],
+        extra_cov={"stage2_checked_cfg": ctx.extra.get("e5"), "stage3_emitted_hugr": ctx.extra.get("e7"), "programs": max(v["accepted"] + v["rejected"], 1), "disagreements_checked": len(ctx.violations), "accepted": v["accepted"], "rejected": v["rejected"],
                    "verdict_table": table, "distinct_nontrivial": v["accepted"] + v["rejected"], "exhaustive": False},
     )
